@@ -67,7 +67,34 @@ func optKind(o string) string {
 	return o
 }
 
+// lenClass makes the class of a boundary-length case name the field kind and length instead of the
+// constructor: a defect at the 253/254 boundary is one defect, whatever constructor shows it.
+func lenClass(c *ctor, p profile, class string) string {
+	if p.Len == "" {
+		return class
+	}
+	parts := strings.SplitN(p.Len, ":", 2)
+	kind := "?"
+	for _, f := range c.getInfo().fields {
+		if f.name == parts[0] {
+			kind = lenKind(f.typ)
+		}
+	}
+	if i := strings.IndexByte(class, '@'); i > 0 {
+		class = class[:i]
+	}
+	return class + "@" + kind + "-field-len-" + parts[1]
+}
+
 func evalRT(w wRT) kit.Result {
+	r := evalRT0(w)
+	if r.Class != "" {
+		r.Class = lenClass(lookup(w.Ctor), w.Prof, r.Class)
+	}
+	return r
+}
+
+func evalRT0(w wRT) kit.Result {
 	c := lookup(w.Ctor)
 	for _, bare := range []bool{false, true} {
 		mode := "boxed"
@@ -95,6 +122,9 @@ func evalRT(w wRT) kit.Result {
 		if !bytes.Equal(b1, b2) {
 			return kit.Bad("reencode-bytes", "%s %s (%s): re-encoding gives different bytes (%d vs %d bytes, first difference at %d)", c.key(), w.Prof, mode, len(b1), len(b2), firstDiff(b1, b2))
 		}
+	}
+	if w.Prof.Len != "" {
+		return kit.OKo(lenClass(c, w.Prof, "len"))
 	}
 	return kit.OKo(optKind(w.Prof.Opt) + ":" + w.Prof.Scalars)
 }
@@ -513,7 +543,7 @@ func main() {
 
 		c.Rule("Constructors: all %d entries of tg/mt/e2e TypesConstructorMap(). Values are built by reflection from a profile: scalars {z: zero, n: canonical non-zero, L (thorough): min ints / NaN / 254-byte strings / 256-byte bytes} x "+
 			"optional fields {none, all, each single flag-bit group (fields sharing a flag bit are switched together; present fields get their flag set like the generated setters do)} x vector length {0,1,2} x class-typed fields "+
-			"{constructor 0, 1 of the class; thorough: every constructor of the class for each field in turn}, nesting depth 2 with the minimal constructor below; generic !X fields hold a tg function (and a nested generic). "+
+			"{constructor 0, 1 of the class; thorough: every constructor of the class for each field in turn}; in addition every string / bytes field (and vector of them) of every constructor, one at a time, with a value of exactly 0, 253, 254 and 255 bytes (TL short/long string form boundary; class <kind>-field-len-<n>); nesting depth 2 with the minimal constructor below; generic !X fields hold a tg function (and a nested generic). "+
 			"Round trip, boxed and bare: Encode succeeds, Decode into a fresh constructor-map value (generic object fields pre-set to the expected type) gives a value equal to the encoded one (floats by bits, nil = empty vector), "+
 			"re-encoding gives identical bytes. Decode safety (worker processes, 3 GiB limit): for 2 base encodings per constructor, decoded through the constructor (target from the constructor map), through DecodeBare, "+
 			"and through each of the %d generated class decoders for each of its constructors: every prefix (quick: word steps, thorough: byte steps), every word position replaced by each of 13 words "+
@@ -542,6 +572,14 @@ func main() {
 				}
 				for g := range ti.groups {
 					rj = append(rj, wRT{ct.key(), profile{Scalars: s, Opt: fmt.Sprintf("g%d", g), Vec: 1, Pick: 0}})
+				}
+			}
+			for _, f := range ti.fields {
+				if lenKind(f.typ) == "" {
+					continue
+				}
+				for _, n := range []int{0, 253, 254, 255} {
+					rj = append(rj, wRT{ct.key(), profile{Scalars: "n", Opt: "all", Vec: 1, Pick: 0, Len: fmt.Sprintf("%s:%d", f.name, n)}})
 				}
 			}
 			if c.Thorough() {
